@@ -15,6 +15,10 @@ import (
 
 // tryReplay attempts to turn a failed obligation's model into a failing run of the real code.
 // Families with a template register themselves in replayers (key: prefix of the obligation name).
+// replayMeta: where the generated test of the most recent replay was injected (recorded in the replay file so that
+// `gvc replay <file>` can run it again).
+var replayMeta map[string]string
+
 var replayers = map[string]func(w *World, nr *namedResult) (bool, interface{}){}
 
 func tryReplay(w *World, prop string, nr *namedResult) (bool, interface{}) {
@@ -134,3 +138,92 @@ func runOverlayTest(repoDir, pkgRel, fileName, content, runPattern string) (pass
 	err = cmd.Run()
 	return err == nil, truncate(buf.String(), 6000)
 }
+
+// runReplay implements `gvc replay <file>`: re-runs the recorded counterexample test against /repo's current tree when the replay
+// file carries one; otherwise re-decides the recorded obligation. Exit 1: the violation still shows; 0: it no longer does.
+func runReplay(repo string, path string) int {
+	data, err := os.ReadFile(path)
+	if err != nil {
+		fmt.Fprintln(os.Stderr, err)
+		return 2
+	}
+	var rec map[string]interface{}
+	if err := json.Unmarshal(data, &rec); err != nil {
+		fmt.Fprintln(os.Stderr, "not a replay file:", err)
+		return 2
+	}
+	fmt.Printf("obligation: %v\nmeaning:    %v\nproperty:   %v\n", rec["obligation"], rec["meaning"], rec["property"])
+	if info, ok := rec["replay"].(map[string]interface{}); ok {
+		if ov, ok := info["overlay"].(map[string]interface{}); ok {
+			test, _ := info["test"].(string)
+			passed, out := runOverlayTest(repo, fmt.Sprint(ov["pkg"]), fmt.Sprint(ov["file"]), test, fmt.Sprint(ov["run"]))
+			fmt.Println(out)
+			if !passed {
+				fmt.Println("REPLAY: the recorded input still fails on the current tree")
+				return 1
+			}
+			fmt.Println("REPLAY: the recorded input no longer fails on the current tree")
+			return 0
+		}
+	}
+	fmt.Println("no failing input was recorded for this obligation (no-failing-input-found); solver output of the failed instances:")
+	if insts, ok := rec["instances_detail"].([]interface{}); ok {
+		for _, i := range insts {
+			if m, ok := i.(map[string]interface{}); ok {
+				fmt.Printf("  at %v path %v: %v %v\n", m["At"], m["Path"], m["Backend"], m["Tried"])
+			}
+		}
+	}
+	fmt.Println("re-deciding the obligation on the current tree ...")
+	name := fmt.Sprint(rec["obligation"])
+	key := name
+	if i := strings.Index(name, "#"); i >= 0 {
+		key = name[:i]
+	}
+	w, err := loadWorld(repo)
+	if err != nil {
+		fmt.Fprintln(os.Stderr, err)
+		return 2
+	}
+	root := verifRoot()
+	sp, err := loadSpecs(w, filepath.Join(root, "specs", "extern"))
+	if err != nil {
+		fmt.Println("REPLAY: the contracts no longer load:", err)
+		return 1
+	}
+	fn := w.findFunc(key)
+	if fn == nil {
+		fmt.Println("REPLAY: not an obligation of a single function (frame, lemma or unbound contract); run the property's check instead")
+		return 1
+	}
+	res := verifyFunc(w, sp, fn, sp.lookupFunc(fn), true)
+	if res.Err != "" {
+		fmt.Println("REPLAY: the function is not analysable on the current tree:", res.Err)
+		return 1
+	}
+	workDir := filepath.Join(root, "work", "replay")
+	os.MkdirAll(workDir, 0o755)
+	var jobs []job
+	for i, o := range res.Obligs {
+		if o.Name == name {
+			jobs = append(jobs, job{o, res.Lits, i})
+		}
+	}
+	if len(jobs) == 0 {
+		fmt.Println("REPLAY: the obligation is no longer generated on the current tree")
+		return 1
+	}
+	failed := 0
+	for _, v := range dischargeAll(jobs, workDir, 10, false, 16) {
+		if v.Status != "discharged" {
+			failed++
+		}
+	}
+	if failed > 0 {
+		fmt.Printf("REPLAY: the obligation still fails on the current tree (%d of %d instances)\n", failed, len(jobs))
+		return 1
+	}
+	fmt.Println("REPLAY: the obligation is discharged on the current tree")
+	return 0
+}
+
